@@ -797,6 +797,43 @@ func checkRedo(c *run.Ctx, n *fx.Node, u *fx.Universe, blk *types.Block, wit int
 	}
 }
 
+// checkDiscards: whatever the miner tried and did not package was rolled back through the journal, so the block must
+// be the one the miner produces when it is offered the packaged transactions only.
+func checkDiscards(c *run.Ctx, cl *scn.Cluster, t uint32, cands []scn.Cand, blk *types.Block) {
+	if len(blk.Txs) >= len(cands) {
+		return
+	}
+	c.Stat("discard_blocks_checked", 1)
+	c.Stat("discarded_or_left_out_candidates", int64(len(cands)-len(blk.Txs)))
+	pure, err := cl.Nodes[0].Mine(cl.Head, t, fx.CloneTxs(blk.Txs), "")
+	same := err == nil && len(pure.Block.Txs) == len(blk.Txs)
+	for i := 0; same && i < len(blk.Txs); i++ {
+		same = pure.Block.Txs[i].Hash() == blk.Txs[i].Hash()
+	}
+	switch {
+	case err != nil:
+		c.Stat("discard_pure_run_failed", 1)
+	case !same:
+		// e.g. a rolled-back box keeps its gas subtracted from the block's gas pool: another packaged list, nothing to compare
+		c.Stat("discard_pure_run_packaged_differently", 1)
+	case pure.Block.Hash() != blk.Hash():
+		d := scn.LogTypeDiff(blk.ChangeLogs, pure.Block.ChangeLogs)
+		if d == "same" {
+			d = "header-only"
+		}
+		parts := strings.FieldsFunc(strings.Replace(d, "changed:", "", -1), func(r rune) bool { return r == '+' || r == '-' })
+		sort.Strings(parts)
+		var uniq []string
+		for i, p := range parts {
+			if i == 0 || p != parts[i-1] {
+				uniq = append(uniq, p)
+			}
+		}
+		viol(c, "C07/discarded-tx-leaves-trace:"+strings.Join(uniq, "+"), fmt.Sprintf("block %d: the miner's block with %d candidates tried and not packaged differs from its block over the packaged %d alone: %s", blk.Height(), len(cands)-len(blk.Txs), len(blk.Txs), d),
+			map[string]interface{}{"Monitor": "redo", "Chain": cl.Witness(t, cands, "discard")})
+	}
+}
+
 func redoScenario(c *run.Ctx, idx int) {
 	r := run.NewRng(c.Seed, 7, 3, uint64(idx))
 	wcfg := fx.WorldCfg{Deputies: 1 + idx%3, Users: 10, SlotMs: uint64(1000 * r.Range(2, 6))}
@@ -817,12 +854,20 @@ func redoScenario(c *run.Ctx, idx int) {
 			cands = cl.G.Next(t, cl.Head.Height()+1, r.Range(4, 12))
 		}
 		c.WAL(map[string]interface{}{"Monitor": "redo", "scenario": idx, "block": bi})
+		// every third block the miner chooses a small block gas limit, so that candidates (also sub-transactions in the
+		// middle of a box) run into the exhausted gas pool and are left out
+		cl.Nodes[0].GasLimit = 0
+		if bi >= 2 && r.Chance(1, 3) {
+			cl.Nodes[0].GasLimit = uint64(r.Range(200000, 600000))
+			c.Stat("discard_blocks_with_small_gas_limit", 1)
+		}
 		res, err := cl.Nodes[0].Mine(cl.Head, t, scn.Txs(cands), "")
 		if err != nil {
 			c.Note(fmt.Sprintf("redo scenario %d: mining failed: %v", idx, err))
 			return
 		}
 		blk := res.Block
+		checkDiscards(c, cl, t, cands, blk)
 		if _, err := fx.WireE(blk, true); err != nil {
 			c.Stat("redo_block_with_unencodable_logs", 1) // C11's known finding (negative votes); nothing published to redo
 			return
@@ -1015,8 +1060,10 @@ func replay(c *run.Ctx, raw json.RawMessage) {
 			c.Inconclusive("replay: mining failed: " + err.Error())
 			return
 		}
+		checkDiscards(c, cl, head.Chain.Time, cands, res.Block)
 		if errs := cl.InsertAll(res.Block); errs[0] != nil {
-			c.Inconclusive("replay: block rejected: " + errs[0].Error())
+			c.Note("replay: block rejected: " + errs[0].Error())
+			c.Case("replay redo", true, nil)
 			return
 		}
 		cl.G.U.Block(res.Block)
